@@ -45,6 +45,20 @@ EXEMPT = {
 }
 
 
+def full_profile(repo, **over):
+    """A profile as the constructor of /repo makes it (every documented parameter with its default), with `over` on top."""
+    from checks._profile import ProfileModel
+
+    pm = getattr(repo, "_c17_pm", None)
+    if pm is None:
+        pm = ProfileModel(repo)
+        repo.__dict__["_c17_pm"] = pm
+    p_ = pm.new("stub", None, {})
+    for k_, v_ in over.items():
+        setattr(p_, k_, v_)
+    return p_
+
+
 def dumped_payload(repo, overrides=None):
     """The dump writer folded whole on a sample whose every data attribute (and both table arguments) carries a marker of its own:
     -> (writer function, payload handed to pickle.dump, {attribute / argument name: marker}). Which state the archive holds is read
@@ -64,7 +78,7 @@ def dumped_payload(repo, overrides=None):
         if a == "name":
             me.name = mark[a]
         elif a == "profile":
-            me.profile = Obj(marker=mark[a], cn_region=None)
+            me.profile = full_profile(repo, marker=mark[a], cn_region=None)
         elif a == "phases":
             me.phases = {"r1": {1: mark[a], 2: "_"}, "single": {1: "_"}}   # (the writer may keep the records without their fragment names)
         else:
@@ -297,7 +311,7 @@ def r6(repo, res):
             (103, "A>C"): [(40, 31)] * 2, (97, "G>T"): [(40, 32)] * 3,      # 97: outside the reference bounds, reference reads present
             (118, "C>A"): [(40, 33)] * 2,                                   # outside the bounds, no reference reads at all
             (105, "insTT"): [(40, 34)] * 2, (98, "insA"): [(40, 35)], (106, "delG"): [(40, 36)] * 2})
-        me = Obj(gene=Obj(chr_to_ref={p: p - 100 for p in range(100, 111)}, name="G"), profile=Obj(cn_region=None), _multi_sites={103: "AC>CT"},
+        me = Obj(gene=Obj(chr_to_ref={p: p - 100 for p in range(100, 111)}, name="G"), profile=full_profile(repo, cn_region=None), _multi_sites={103: "AC>CT"},
                  _indel_sites={(105, "insTT"): [1, 2], (106, "delG"): [0, 0]}, _dump_cn=collections.defaultdict(int, {200: 3}),
                  _fusion_counter={}, _insertion_reads={}, _insertion_counts={}, phases={"r1": {103: "A>C"}}, name="S", coverage=None)
         return norm, muts, me
@@ -377,7 +391,7 @@ def r7(repo, res):
         norm[99] = []
         muts = collections.defaultdict(list, {(103, "A>C"): [(40, 31), (40, 31), (35, 12)], (105, "insTT"): [(40, 34)] * 2,
                                               (106, "delG"): [(40, 36)] * 2, (98, "G>T"): [(40, 32)]})
-        prof = Obj(cn_region=None, display_format=False, debug_probe="", debug_novel=False, min_avg_coverage=2.0, gap=0.0)
+        prof = full_profile(repo, cn_region=None, display_format=False, debug_probe="", debug_novel=False, min_avg_coverage=2.0, gap=0.0, minor_phase_vars=1)  # a small phasing budget: the archive still holds every fragment
         gene = Obj(chr_to_ref={p: p - 100 for p in range(100, 111)}, name="G", genome="hg38")
         me = Obj(gene=gene, profile=prof, name="SAMPLE", _multi_sites={}, _prefix="",
                  _indel_sites={(105, "insTT"): [3, indel_support], (106, "delG"): [4, 0]},
@@ -560,7 +574,7 @@ def r8(repo, res):
     genes = ["G", "G3", "XG"]
     try:
         for g in genes:
-            me = Obj(gene=Obj(name=g, genome="hg38"), profile=Obj(cn_region=None), name=f"S-{g}", _dump_cn={1: 1}, _fusion_counter={}, _indel_sites={},
+            me = Obj(gene=Obj(name=g, genome="hg38"), profile=full_profile(repo, cn_region=None), name=f"S-{g}", _dump_cn={1: 1}, _fusion_counter={}, _indel_sites={},
                      phases={})
             k_, v_, calls_, _, _ = fold_sample_init(repo, "sam", prefix, gene_name=g)
             prefs = [c_[1][0] for c_ in calls_ if c_[0] == "_dump_alignments"]
@@ -620,7 +634,7 @@ def r8(repo, res):
     files.clear()
     try:
         for g in ("G", "G3"):
-            me = Obj(gene=Obj(name=g, genome="hg38"), profile=Obj(cn_region=None), name=f"S-{g}", _dump_cn={1: 1}, _fusion_counter={}, _indel_sites={}, phases={})
+            me = Obj(gene=Obj(name=g, genome="hg38"), profile=full_profile(repo, cn_region=None), name=f"S-{g}", _dump_cn={1: 1}, _fusion_counter={}, _indel_sites={}, phases={})
             k_, v_, calls_, _, _ = fold_sample_init(repo, "sam", prefix2, gene_name=g)
             prefs = [c_[1][0] for c_ in calls_ if c_[0] == "_dump_alignments"]
             if len(prefs) != 1:
